@@ -286,7 +286,7 @@ fn main() {
     let tier = args.tier;
     let dates: Vec<i64> = b_dates(tier).into_iter().filter(|z| (0..=9999).contains(&civil_from_days(*z).0)).collect();
     let small: Vec<i64> = b_dates_small().into_iter().filter(|z| (0..=9999).contains(&civil_from_days(*z).0)).collect();
-    let times = b_times(true);
+    let times = b_times_fracs(true);
     let offs_min = b_offsets_minutes();
     let offs_small: Vec<i32> = b_offsets_small().into_iter().filter(|o| o % 60 == 0).collect();
     // edit units: one per (template, first-edit chunk)
